@@ -95,12 +95,7 @@ def run(rep, tier):
         nfn += len(names)
         for n in names:
             fn = u.fn(n)
-            memsafe.short_circuit_rule(rep, fn)
-            memsafe.stale_bound_rule(rep, fn)
-            memsafe.unguarded_write_rule(rep, fn)
-            memsafe.tail_fill_rule(rep, fn)
-            memsafe.stale_length_rule(rep, fn)
-            memsafe.stale_remaining_rule(rep, fn)
+            memsafe.all_lints(rep, fn)
             ban_rule(rep, fn)
         if lab.endswith("bt_encode.c"):
             recursion_rule(rep, u)
